@@ -482,6 +482,23 @@ impl<W: AsRef<[u64]>> YamlIndex<W> {
         self.aliases.get(&bp_pos).copied()
     }
 
+    /// Whether the subtree rooted at `bp_pos` (the node itself included)
+    /// holds an alias whose anchor is declared outside it.
+    ///
+    /// An anchor always precedes its aliases in the text, so "outside" can
+    /// only mean *before* the subtree opens. Costs nothing for a document
+    /// without aliases, and otherwise only visits the aliases inside the
+    /// subtree.
+    pub fn has_alias_to_outside(&self, bp_pos: usize) -> bool {
+        if self.aliases.is_empty() {
+            return false;
+        }
+        let close = self.bp.find_close(bp_pos).unwrap_or(bp_pos);
+        self.aliases
+            .range(bp_pos..=close)
+            .any(|(_, &target)| target < bp_pos)
+    }
+
     /// Get the anchor name that an alias at the given BP position references.
     ///
     /// Returns `None` if the position is not an alias.
